@@ -40,6 +40,8 @@ def grid(t):
 
 
 VEX = [F(-2), F(-1), F(-1, 2), F(0), F(1, 4), F(1, 2), F(1), F(2), F(4)]
+VEX_QUICK = [F(-1), F(0), F(1, 2), F(1), F(2)]
+EXACT_FULL = [False]
 
 
 class Timeout(Exception):
@@ -248,8 +250,9 @@ def run_program(fa, recipe, cfg, X, Y):
     except Exception:
         fenv0 = fenv1 = None
     sm0, sm1 = {}, {}
-    for xv in VEX:
-        for yv in VEX:
+    vex = VEX if EXACT_FULL[0] else VEX_QUICK
+    for xv in vex:
+        for yv in vex:
             env = {"x": xv, "y": yv}
             q0 = exact_eval(fa, e, env, t, {}, fenv0, sm0)
             if q0 is None:
@@ -392,6 +395,7 @@ def w_scope(task):
     V = grid(t)
     X, Y = np.meshgrid(V, V, indexing="ij")
     X, Y = X.ravel(), Y.ravel()
+    EXACT_FULL[0] = bool(task.get("exact_full"))
     progs = programs(task["scope"], task["size"], task["level"])
     sl = progs[task["lo"]::task["stride"]]
     for recipe in sl:
@@ -512,7 +516,7 @@ def run(run):
         run.counters[f"programs_{scope}{size}_L{level}_{cfg}"] = n
         stride = max(1, min(256, n // 400 + 1))
         for lo in range(stride):
-            tasks.append(dict(scope=scope, size=size, level=level, cfg=cfg, lo=lo, stride=stride))
+            tasks.append(dict(scope=scope, size=size, level=level, cfg=cfg, lo=lo, stride=stride, exact_full=thorough))
     run.map(MOD, "w_scope", tasks)
     reqs = [r for r in gen.requests(fa) if r[0] in ("numpy", "python", "cpp", "stablehlo", "xla_client")]
     if not thorough:
@@ -522,8 +526,8 @@ def run(run):
     run.rule = (
         "every expression tree of the stated sizes over the kinds negative/positive/absolute/sign/sqrt/square/add/subtract/multiply/divide/minimum/maximum/6 comparisons/"
         "logical and,or,xor,not/select with leaves x, y, numeric (0, 1, -1, 2, 0.5, -0.0, ...) and named constants, booleans, in a float32-typed and a generic-float "
-        "Context (scopes A, B, C, D as listed in counters), each rewritten and compared with the original on the full 16x16 assignment grid (flag-free points of "
-        "the original) and exactly on a 9x9 rational grid; shipped algorithms before/after fa.rewrite on lattices; non-trivial = programs the rewriter changed"
+        "Context (scopes A, B, C, D as listed in counters), each rewritten and compared with the original on the full 18x18 assignment grid (flag-free points of "
+        "the original) and exactly on a rational grid (9x9 thorough, 5x5 quick); shipped algorithms before/after fa.rewrite on lattices; non-trivial = programs the rewriter changed"
     )
     run.exhaustive = True
     run.coverage_extra["exhaustive_scope"] = "all programs of the listed scopes/sizes; not all programs"
